@@ -120,6 +120,10 @@ class Runner:
         return threads.BernoulliChooser(rng, pol["p_line"], pol["p_hot"])
 
     def run(self, sc, seed, decisions=None):
+        """Runs the scenario in a forked child (identical pristine process image for every run; a hung run can be killed)."""
+        return common.run_isolated(self.run_here, (sc, seed, decisions), timeout=240.0)
+
+    def run_here(self, sc, seed, decisions=None):
         """Executes the scenario under the simulator. Returns a result dict."""
         old = sys.stdout, sys.stderr
         sys.stdout, sys.stderr = self.out, self.err
@@ -135,7 +139,11 @@ class Runner:
         for k in sc["shared"]:
             if not judged[k]["accepts"]:
                 return {"result": "skip", "why": "initial text of a shared evaluator is rejected by the tree"}
-        shared = [self.EE(texts[k]["text"]) for k in sc["shared"]]
+        try:
+            shared = [self.EE(texts[k]["text"]) for k in sc["shared"]]
+        except Exception as e:  # noqa: BLE001
+            # purely sequential inconsistency (a text accepted a moment ago is now refused): C11's business, not a schedule
+            return {"result": "skip", "why": "sequential reference inconsistent: " + type(e).__name__}
         hist = []
         private = [None] * len(sc["threads"])
 
@@ -330,7 +338,7 @@ def warmup(runner):
                                                                                                    {"op": "recompile", "s": 0, "t": 0}]],
           "policy": {"kind": "bernoulli", "p_line": 0.05, "p_hot": 0.05}}
     for _ in range(2):
-        runner.run(sc, 0)
+        runner.run_here(sc, 0)
 
 
 # ---------------------------------------------------------------------------
